@@ -689,6 +689,27 @@ func (v *View) checkC18Convergence(res *Result) {
 			if e.VT-s.lastChange < bound || e.VT-lastTrans[e.Inst] < bound {
 				continue
 			}
+			// a call of this follower held by the harness (breakpoint) or hanging keeps its
+			// loop from reading anything: only judge followers whose calls in the window
+			// took no longer than two legs
+			held := false
+			lim := 2*v.maxLeg() + time.Millisecond
+			for _, c := range v.CallsL {
+				if c.Inst != e.Inst || c.IssueVT > e.VT {
+					continue
+				}
+				end := c.ReturnVT
+				if c.Return < 0 || c.Return > idx {
+					end = e.VT
+				}
+				if end >= e.VT-bound && end-c.IssueVT > lim {
+					held = true
+					break
+				}
+			}
+			if held {
+				continue
+			}
 			res.Obs["c18.follower_convergence_checks"]++
 			if sn.LeaderID != s.owner {
 				res.viol("C18", "follower-leaderid", "follower-leaderid-stale", fmt.Sprintf("follower %s LeaderID=%q but live record owner %q since %v (now %v)", e.Inst, sn.LeaderID, s.owner, s.lastChange, e.VT), idx)
